@@ -226,6 +226,10 @@ def item_forms(rng, fields):
         line = ",".join(fields)
         if rng.random() < 0.3:
             line = rng.choice([" ", "\t", ""]) + line + rng.choice(["", " ", "\n"])
+        if rng.random() < 0.35:
+            # a string ITEM of a list may itself hold several lines, comments and blanks
+            more = [",".join(rand_item(rng, None)) for _ in range(rng.randint(1, 2))]
+            line = "\n".join([line] + rng.sample(["# note", "", "  "], rng.randint(0, 2)) + more)
         return line, "L:" + S(line)
     if form == 1:
         fs = list(fields)
